@@ -73,6 +73,20 @@ def generate(tier, rng):
             keep = None if rng.random() < 0.4 else rng.sample(gen.LABELS, rng.randint(0, 4))
             cases.append({"op": "morph", "tier": t, "args": {"target": tg, "filter": keep},
                           "scale": gen.pick_scale(rng, decimal_share=0.3)})
+    # two references that differ in one time only, one after the other in the same process (-1 and -2 are the classic
+    # pair of different numbers with the same hash)
+    for _ in range(40 if tier == "quick" else 1500):
+        kind = "I" if rng.random() < 0.6 else "P"
+        t = gen.random_itier(rng, tmax=20, maxn=4) if kind == "I" else gen.random_ptier(rng, tmax=20, maxn=4)
+        t = gen.shift_tier(t, -3)
+        ref = gen.random_ptier(rng, tmax=20, maxn=4, name="r")
+        a, b = rng.choice([(-1, -2), (-2, -1), (-1, -2), (1, 2)])
+        for x in (a, b):
+            ref["entries"] = [e for e in ref["entries"] if e[0] != x]
+        d = rng.randint(1, 3)
+        for x in (a, b):
+            r2 = dict(ref, entries=sorted(ref["entries"] + [[x, "r"]]), min=min(ref["min"], -3), max=ref["max"])
+            cases.append({"op": "dejitter", "tier": t, "args": {"ref": r2, "d": d}, "scale": ["dyadic", 0]})
     for _ in range(300 if tier == "quick" else 4000):
         tiers = []
         # names that contain one another (a tier is selected by its name, not by a part of it)
